@@ -205,7 +205,29 @@ class Universe:
                 gc.collect()
             exec(compile(self.source(), m.__name__, "exec", dont_inherit=True), m.__dict__)
             self.module = m
+            if self.uid % 2 == 0:
+                self.warm_first_bases()
         return self.module
+
+    def warm_first_bases(self):
+        """For every class that declares nothing itself and assembles its fields from two node bases, an instance of its FIRST
+        base is built (and its accessors used) before the class is ever used: the accessors specialised for the base must
+        not be taken over (seeded changes C14-9, C03-12, C09-10 - three independent adversaries found this one)."""
+        import gc
+        import random
+
+        try:
+            from ..props.c15 import mk_origin
+            for c in self.classes:
+                if c.mixins and not c.own and c.base is not None:
+                    t = TreeGen(random.Random(self.uid), self, max_nodes=4, max_depth=2).node(c.base)
+                    n = Built(self, mk_origin).build(t)
+                    list(n.dfs()), list(n.get_properties()), list(n.get_child_nodes()), list(n.get_child_nodes_with_field())
+                    list(n.iter_child_fields())
+                    del n
+            gc.collect()
+        except Exception:  # noqa: BLE001 - only a disturbance
+            pass
 
 
 def py_value_src(v, enum_name):
